@@ -799,7 +799,7 @@ func runE2E(r *rng.R, tier, out string, m *meta) {
 		os.Exit(4)
 	}
 	defer rg.stop()
-	nX := 420
+	nX := 360
 	if tier == "thorough" {
 		nX = 6000
 	}
